@@ -207,9 +207,23 @@ def commit(ctx):
     for f in fs:
         pn = "p:" + f.params[0]["name"]
         la = LockAnalysis(eng, f, entry_state={"this.m_lock": LockVal("this.m_guarded.m_writeMutex", "X", MAYBE)})
-        ex = la.block_in.get(f.exit, {}).get("this.m_lock")
         abandoned = [n for n in la.notes if "release()" in n[1]]
-        ok = ex is not None and ex.st == UNOWNED and not abandoned
+        # the deleter runs in one of two situations: the handle was not cancelled (the lock may be owned), or cancel() ran
+        # before (the lock is in whatever state cancel() leaves it in) - each must end with the lock released
+        fcs = [g for g in fb.functions(rec=DEL, name="cancel") if g.recq == f.recq]
+        s1 = MAYBE
+        if fcs:
+            lc_ = LockAnalysis(eng, fcs[0], entry_state={"this.m_lock": LockVal("this.m_guarded.m_writeMutex", "X", MAYBE)})
+            v1 = lc_.block_in.get(fcs[0].exit, {}).get("this.m_lock")
+            s1 = v1.st if v1 is not None else MAYBE
+        la_live = LockAnalysis(eng, f, entry_state={"this.m_lock": LockVal("this.m_guarded.m_writeMutex", "X", MAYBE)},
+                               assume={"this.m_cancelled": False})
+        la_canc = LockAnalysis(eng, f, entry_state={"this.m_lock": LockVal("this.m_guarded.m_writeMutex", "X", s1)},
+                               assume={"this.m_cancelled": True})
+        ex_l = la_live.block_in.get(f.exit, {}).get("this.m_lock")
+        ex_c = la_canc.block_in.get(f.exit, {}).get("this.m_lock")
+        ok = ex_l is not None and ex_l.st == UNOWNED and ex_c is not None and ex_c.st == UNOWNED and not abandoned
+        ex = ex_l if (ex_l is None or ex_l.st != UNOWNED) else ex_c
         ctx.ob(rid, ok, abandoned[0][0] if abandoned else f.where, "the writer lock is released on every path through the deleter",
                "" if ok else ("m_lock.release() gives up ownership without unlocking: the writer mutex stays locked for ever"
                if abandoned else "m_lock may still be owned when the deleter returns: after handle.reset() the object stays "
@@ -309,10 +323,11 @@ def commit(ctx):
                    "left-right applications)", detail, fn=f.label, inst=f.qname)
     for f in fb.functions(rec=DEL, name="cancel"):
         la = LockAnalysis(eng, f, entry_state={"this.m_lock": LockVal("this.m_guarded.m_writeMutex", "X", MAYBE)})
-        ex = la.block_in.get(f.exit, {}).get("this.m_lock")
+        # (whether the lock is released by cancel() itself or by the deleter that handle::cancel() runs right afterwards is
+        # decided above: the deleter's cancelled path starts from the state cancel() leaves the lock in)
         abandoned = [n for n in la.notes if "release()" in n[1]]
-        ok = ex is not None and ex.st == UNOWNED and not abandoned
-        ctx.ob(rid, ok, abandoned[0][0] if abandoned else f.where, "cancel() releases the writer lock on every path",
+        ok = not abandoned
+        ctx.ob(rid, ok, abandoned[0][0] if abandoned else f.where, "cancel() never abandons the writer lock",
                "" if not abandoned else "m_lock.release() gives up ownership without unlocking: the writer mutex stays locked "
                "for ever and every later writer blocks", fn=f.label, inst=f.qname)
         sets = [st for st in f.stmts.values() if st["k"] == "BinaryOperator" and st["op"] == "=" and
